@@ -32,6 +32,7 @@ const (
 	zzOPSL
 	zzOStar
 	zzOBad
+	zzOInsecurePSL // both insecure and `*.<public suffix>`: two independent violations
 )
 
 type zzOAtom struct {
@@ -48,7 +49,9 @@ var zzOAtoms = []zzOAtom{
 	{"null", zzOBad},
 	{"https://a.b:443", zzOBad},
 	{"http://*.a.b", zzOInsecure},
+	{"http://*.com", zzOInsecurePSL},
 	// thorough tier from here
+	{"zz://*.co.uk:*", zzOInsecurePSL},
 	{"https://*.co.uk:*", zzOPSL},
 	{"https://*.com.", zzOPSL},
 	{"http://localhost:*", zzOSecure},
@@ -225,7 +228,7 @@ func zzHasPrefix(s, p string) bool { return len(s) >= len(p) && s[:len(p)] == p 
 // documented violation, and reports exactly the documented errors otherwise.
 func zzH_C04_validate() {
 	thorough := zzTier() >= 1
-	nO, nN, maxList := 8, 7, 2
+	nO, nN, maxList := 9, 7, 2
 	if thorough {
 		nO, nN, maxList = len(zzOAtoms), 10, 2
 	}
@@ -290,7 +293,7 @@ func zzH_C04_validate() {
 			if pna {
 				want = append(want, zzErr{kind: zzEIncompat, value: "*", reason: "pna"})
 			}
-		case zzOInsecure:
+		case zzOInsecure, zzOInsecurePSL:
 			if !cfg.DangerouslyTolerateInsecureOrigins {
 				if cfg.Credentialed {
 					want = append(want, zzErr{kind: zzEIncompat, value: a.raw, reason: "credentialed"})
@@ -299,7 +302,8 @@ func zzH_C04_validate() {
 					want = append(want, zzErr{kind: zzEIncompat, value: a.raw, reason: "pna"})
 				}
 			}
-		case zzOPSL:
+		}
+		if a.kind == zzOPSL || a.kind == zzOInsecurePSL {
 			if !cfg.DangerouslyTolerateSubdomainsOfPublicSuffixes {
 				want = append(want, zzErr{kind: zzEIncompat, value: a.raw, reason: "psl"})
 			}
